@@ -5,5 +5,5 @@ Require Import ExtrOcamlBasic.
 From IronCalc Require Import Base.Prelude Codec.RefA1 Syntax.Token Syntax.Ast Syntax.Printer Syntax.Parser Syntax.Shape.
 Extraction Language OCaml.
 Extraction "model_c09.ml"
-  Printer.print Parser.parse Parser.parse_fuel Ast.size Ast.kind_of
+  Printer.print Printer.print_fixed Parser.parse Parser.parse_fuel Ast.size Ast.kind_of
   Shape.glue Shape.glue_free Shape.bad_pairs Shape.no_bad Shape.image Shape.fragment Shape.kind_name.
